@@ -25,7 +25,7 @@ RULE = ('argument lists of 1-6 in seeded order mixing trashable entries, missing
         '(the list, then each argument alone under the same faults and clock); non-trivial = the list mixes at least one failing and one '
         'trashable argument; distinct = (sorted multiset of argument classes, options, position of the first failing argument)')
 ASSUMPTIONS = ['independence is claimed for arguments none of which is an ancestor, alias, link target or duplicate of another']
-PROBES = ['lists', 'solo-runs', 'mixed-lists', 'arg-trashed', 'arg-missing', 'arg-dot', 'arg-invalid-utf8', 'arg-fault-immutable',
+PROBES = ['arg-empty-string', 'lists', 'solo-runs', 'mixed-lists', 'arg-trashed', 'arg-missing', 'arg-dot', 'arg-invalid-utf8', 'arg-fault-immutable',
           'arg-fault-dir', 'arg-declined', 'arg-missing-forced', 'duplicates-lists', 'exit0', 'exit-nonzero']
 TECHNIQUE = 'deterministic simulation with injected persistent conditions; differential: each argument alone vs inside the list on identically rebuilt worlds'
 LEVEL_TEXT = 'seeded exploration of argument lists x orders x options x injected failures; exit status, per-argument diagnostics and independence (by differential)'
@@ -46,11 +46,15 @@ def gen(rng):
         vol = rng.choice(['/'] + L['vols'])
         wd = L['work'][vol]
         aux = home + '/aux' if vol == '/' else vol + '/aux'
-        cls = rng.choice(['ok', 'ok', 'ok', 'missing', 'dot', 'badutf8', 'immutable', 'rodir'])
+        cls = rng.choice(['ok', 'ok', 'ok', 'missing', 'dot', 'badutf8', 'immutable', 'rodir', 'emptystr'])
         nm = 'a%d' % i
         if cls == 'ok':
             p = wd + '/' + nm
             G.make_entry(rng, p, rng.choice(['file', 'dir', 'link_dangling', 'empty']), steps, aux)
+        elif cls == 'emptystr':
+            p = ''
+            if '' in args:
+                p = wd + '/missing%d' % i
         elif cls == 'missing':
             p = wd + '/missing%d' % i
         elif cls == 'dot':
@@ -209,6 +213,8 @@ def check(sim, case, st):
             st.probes['arg-declined'] += 1
         if cls == 'missing' and force:
             st.probes['arg-missing-forced'] += 1
+        if files[i] == '':
+            st.probes['arg-empty-string'] += 1
         failed = (state != 'trashed') and not legit_skip
         if failed:
             expected_fail = True
